@@ -686,12 +686,9 @@ pub fn check(a: &[String]) -> i32 {
         if masked.contains(key) {
             continue;
         }
-        if reported >= env_u64("ZSIM_MAX_REPORT", 6) {
-            println!("note: further violation class not minimised: {key} ({} runs)", found_counts[key]);
-            // still a violation
-            violation_lines.push(format!("VIOLATION property={} replay=(not written; class {key})", def.id));
-            continue;
-        }
+        // the first few classes are minimised; further ones get an un-minimised (but confirmed)
+        // replay file, so that every VIOLATION line names a file that reproduces
+        let minimise_this = reported < env_u64("ZSIM_MAX_REPORT", 6);
         reported += 1;
         let st = &def.strata[f.sid];
         let raw_path = replays_dir.join(format!("{}-{}-{}.raw.json", def.id, sanitize(key.splitn(2, ':').nth(1).unwrap_or(key)), f.seed));
@@ -747,11 +744,11 @@ pub fn check(a: &[String]) -> i32 {
                 continue;
             }
         }
-        let min = shrink::minimise(&rf, Duration::from_secs(env_u64("ZSIM_SHRINK_S", 12)));
+        let min = if minimise_this { shrink::minimise(&rf, Duration::from_secs(env_u64("ZSIM_SHRINK_S", 12))) } else { rf.clone() };
         min.save(&min_path);
         let _ = std::fs::remove_file(&raw_path);
         let sizes: Vec<usize> = min.tapes.iter().map(|t| t.iter().filter(|x| **x != 0).count()).collect();
-        println!("violation: {key}: {} ({} runs); minimised replay has {:?} non-zero draws (plan/sched/io/select), was {:?}", min.detail, found_counts[key], sizes, rf.tapes.iter().map(|t| t.iter().filter(|x| **x != 0).count()).collect::<Vec<_>>());
+        println!("violation: {key}: {} ({} runs); {} replay has {:?} non-zero draws (plan/sched/io/select), was {:?}", min.detail, found_counts[key], if min.minimised { "minimised" } else { "un-minimised" }, sizes, rf.tapes.iter().map(|t| t.iter().filter(|x| **x != 0).count()).collect::<Vec<_>>());
         violation_lines.push(format!("VIOLATION property={} replay={}", def.id, min_path.display()));
     }
     if !violation_lines.is_empty() {
